@@ -196,15 +196,23 @@ def ops_list():
     return [p for p in res if p[1] != 'DELETE'] + sorted([p for p in res if p[1] == 'DELETE'], key=lambda p: -len(p[0]))
 
 
-def issue(app, route, method, token, roles, project, content_type='application/json'):
+def issue(app, route, method, token, roles, project, content_type='application/json', version=39):
     path = surface.concrete_path(route, method)
     if route == '/usages':
         path += '?project_id=%s' % project
     body = {} if method in ('POST', 'PUT') else None
     impl.OBS.reset()
     hdrs = {'x-roles': roles} if token is not None else {}
-    r = app.request(method, path, body=body, version='1.39', headers=hdrs, token=token, content_type=content_type)
+    r = app.request(method, path, body=body, version='1.%d' % version, headers=hdrs, token=token,
+                    content_type=content_type)
     return r, list(impl.OBS.stmts)
+
+
+def version_bands(route, method):
+    """one representative microversion per documented behaviour band of an operation"""
+    intro = surface.SPEC['availability'][route][method][0]
+    pts = surface.SPEC['change_points'].get(route, {}).get(method, [])
+    return sorted(set([intro, 39] + [p for p in pts if p >= intro]))
 
 
 def check_denied(route, method, caller, r, stmts, before, after):
@@ -257,12 +265,14 @@ def run_c16(tier, out):
         for route, method in oplist:
             if documented_allowed(route, caller):
                 continue
-            r, stmts = issue(app, route, method, token, roles, proj)
-            note(route, method, caller, r, 'default')
-            after = ops.canon_dump(app.raw_dump())
-            for msg in check_denied(route, method, caller, r, stmts, before, after):
-                viols.append(({'kind': 'authz', 'policy': 'default', 'route': route, 'method': method, 'caller': caller,
-                               'observed': r.status}, msg))
+            for ver in version_bands(route, method):
+                r, stmts = issue(app, route, method, token, roles, proj, version=ver)
+                note(route, method, caller + '@1.%d' % ver, r, 'default')
+                after = ops.canon_dump(app.raw_dump())
+                for msg in check_denied(route, method, caller, r, stmts, before, after):
+                    viols.append(({'kind': 'authz', 'policy': 'default', 'route': route, 'method': method,
+                                   'caller': caller, 'version': ver, 'observed': r.status}, msg + ' at 1.%d' % ver))
+                    before = after
     # a denied caller whose request is also malformed for everybody: 415 / 405 are caller-independent
     for caller in ('member',):
         token, roles, proj = CALLERS[caller]
@@ -394,7 +404,7 @@ def replay_c16(path, out):
             out.violation(p, 'without credentials: %d' % r.status)
     else:
         token, roles, proj = CALLERS.get(caller, ('u1:p1', caller.replace('+', ','), 'p1'))
-        r, stmts = issue(app, p['route'], p['method'], token, roles, proj)
+        r, stmts = issue(app, p['route'], p['method'], token, roles, proj, version=p.get('version', 39))
         if r.status == p['observed']:
             out.violation(p, '%s %s by %s still answers %d' % (p['method'], p['route'], caller, r.status))
     app.close()
